@@ -1252,10 +1252,31 @@ def t_reserved_names(facts, res, tier):
 
 
 FLAGS_STORE_EXCEPTIONS = {
-    "generate_strobe_statement:STA": "strobe(reg) stores whatever the accumulator holds to a constant-address `char *` (a hardware strobe register): the value stored "
-                                     "is unspecified by the language, so no program can depend on what a read-back of that cell would tell - and a read of a device "
-                                     "register is not a read of memory",
+    "generate_strobe_statement:STA": "strobe(v) keeps a claim about another cell and drops a claim about v: after the store it matches `self.flags` against "
+                                     "Absolute / AbsoluteX / AbsoluteY(n ..) under the guard `n == <the strobed name>` and assigns Unknown there (premise verified below)",
 }
+
+
+def _strobe_premise(facts):
+    """after its STA, generate_strobe_statement has `match &self.flags { Absolute(n,..) | AbsoluteX(n) | AbsoluteY(n) if n == name => self.flags = Unknown, .. }`"""
+    fn = facts.fn("generate_strobe_statement", genmodel.GEN_QUAL)
+    stores = [x for x in walk(fn["body"]) if _self_call(x, ("asm",)) and x.get("args") and expr_text(x["args"][0]).replace(" ", "").endswith("STA")]
+    if not stores:
+        return "no STA found"
+    operand = re.search(r"ExprType::Absolute\((\w+)", expr_text(stores[0]["args"][1]).replace(" ", ""))
+    name = operand.group(1) if operand else None
+    for m in walk(fn["body"]):
+        if m.get("k") == "match" and expr_text(m["e"]).replace(" ", "").lstrip("&") == "self.flags":
+            for a in m["arms"]:
+                pt = pat_text(a["pat"]).replace(" ", "")
+                g = expr_text(a["guard"]).replace(" ", "").strip("()") if a.get("guard") is not None else ""
+                binders = scopes_pat_names(a["pat"])
+                if all(v in pt for v in ("FlagsState::Absolute(", "FlagsState::AbsoluteX(", "FlagsState::AbsoluteY(")) and len(set(binders)) == 1 \
+                        and g in ("%s==%s" % (binders[0], name), "%s==%s" % (name, binders[0]), "*%s==*%s" % (binders[0], name)) \
+                        and expr_text(a["body"]).replace(" ", "").strip("{};") == "self.flags=FlagsState::Unknown":
+                    return None
+            return "the match on self.flags has no arm `Absolute|AbsoluteX|AbsoluteY(n ..) if n == %s => self.flags = Unknown`" % name
+    return "no match on self.flags after the store"
 
 
 @rule("T-FLAGS-STORE", floor=6,
@@ -1328,7 +1349,11 @@ def t_flags_store(facts, res, tier):
         res.inst(key, True, {"paths_reassigning_flags": d["ok"], "violating": d["bad"] is not None})
         exc = FLAGS_STORE_EXCEPTIONS.get(key.split(":", 1)[1])
         if d["bad"] is not None and exc:
-            res.note("exception %s: %s" % (key, exc))
+            why = _strobe_premise(facts) if key.endswith("generate_strobe_statement:STA") else None
+            if why is None:
+                res.note("exception %s: %s" % (key, exc))
+                continue
+            res.fail(key + ":premise", facts.where(d["fn"], d["bad"]["node"]), "the premise under which this store is admitted no longer holds: %s" % why)
             continue
         if d["bad"] is not None:
             res.fail(key, facts.where(d["fn"], d["bad"]["node"]), "a path through %s stores to memory and returns without assigning `flags`: a claim that N/Z describe that cell, made before the store, survives it (`a = b; a = X; if (a)` tests the flags of b)" % d["fn"]["name"])
